@@ -97,6 +97,10 @@ class Ctx:
         self.trace = []
         self.path_tags = []
         self.qfacts = []            # quantified hypotheses available for engine-side instantiation
+        self.ax_done = set()
+        self.ax_scanned = 0
+        self.qhyps = []             # (QForall, guard or None)
+        self.qdone = set()
         self.names = {}             # z3 const name -> (term) for model extraction
         self.depth = 0
 
@@ -128,6 +132,13 @@ class Ctx:
             return self.new_io(ty.args[0], hint)
         if tag == 'Tuple':
             return VTuple([self.fresh(t, '%s.%d' % (hint, i)) for i, t in enumerate(ty.args)])
+        if tag == 'Pat':
+            return VPat(self._const(hint + '.iseof', z3.BoolSort()), self._const(hint + '.isto', z3.BoolSort()),
+                        self.fresh(ty.args[0], hint + '.val'))
+        if tag == 'SymList':
+            return self.new_symlist(hint, ty.args[0], ty.args[1] if len(ty.args) > 1 else False)
+        if tag == 'Array':
+            return VAny(self._const(hint, z3.ArraySort(z3.IntSort(), sort_of(ty.args[0]))))
         raise Unsupported('fresh value of type %r' % ty)
 
     def _const(self, hint, sort):
@@ -152,6 +163,28 @@ class Ctx:
         cls = 'io.BytesIO' if kind == 'b' else 'io.StringIO'
         return self.alloc(HObj(cls, 'io', {'content': content, 'pos': pos}, closed=True))
 
+    def new_symlist(self, name, comps, scalar=False):
+        arrs = []
+        pat = None
+        if scalar and comps[0][1].tag == 'Pat':
+            pat = comps[0][1]
+            inner = pat.args[0]
+            comps = ((comps[0][0] + '.iseof', T.Bool), (comps[0][0] + '.isto', T.Bool), (comps[0][0] + '.val', inner))
+        for cn, ty in comps:
+            nm = self.fresh_name('%s.%s' % (name, cn))
+            arrs.append((z3.Array(nm, z3.IntSort(), sort_of(ty)), ty))
+        n = VInt(self._const(name + '.len', z3.IntSort()))
+        self.assume(n.t >= 0)
+        return self.alloc(HObj('list', 'symlist', {'len': n, 'comps': arrs, 'scalar': scalar, 'pat': pat is not None},
+                               closed=True))
+
+    def assume_spec(self, f):
+        if isinstance(f, (S.QForall, S.QGuard)):
+            return self.assume(f)
+        if isinstance(f, bool):
+            return self.assume(f)
+        return self.assume(S._b(f))
+
     def new_exc(self, clsname, args):
         return self.alloc(HObj(clsname, 'exc', {'args': VTuple(args)}, closed=False))
 
@@ -165,6 +198,12 @@ class Ctx:
 
     # ---- path condition -------------------------------------------------------------------
     def assume(self, f):
+        if isinstance(f, S.QForall):
+            self.qhyps.append((f, None))
+            return
+        if isinstance(f, S.QGuard):
+            self.qhyps.append((f.q, f.guard))
+            return
         if f is True or (z3.is_true(f) if isinstance(f, z3.ExprRef) else False):
             return
         if f is False:
@@ -223,7 +262,82 @@ class Ctx:
         return k
 
     # ---- obligations ------------------------------------------------------------------------
+    def apply_axioms(self, terms):
+        """Instances of the assumed contracts of uninterpreted library functions (Find, ...) for
+        every application occurring in the obligation or the path condition."""
+        apps = []
+        seen = set()
+        for f in list(terms) + self.pc[self.ax_scanned:]:
+            collect_apps(f, AXIOMS, apps, seen)
+        self.ax_scanned = len(self.pc)
+        for t in apps:
+            key = t.sexpr()
+            if key in self.ax_done:
+                continue
+            self.ax_done.add(key)
+            for ax in AXIOMS[t.decl().name()](t):
+                self.pc.append(ax)
+                self.solver.add(ax)
+        self.ax_scanned = len(self.pc)
+
+    def instantiate(self, goal_terms, rounds=2):
+        """Engine-side instantiation of quantified hypotheses (DESIGN.md 2.5): candidate terms are
+        skolem constants, indices of array reads / substr offsets in the obligation, and hints."""
+        for _ in range(rounds):
+            cands = []
+            seen = set()
+
+            def add(t):
+                t = z3.simplify(t) if isinstance(t, z3.ExprRef) else z3.IntVal(t)
+                k = t.sexpr()
+                if k not in seen and t.sort() == z3.IntSort():
+                    seen.add(k)
+                    cands.append(t)
+            for g in goal_terms:
+                collect_index_terms(g, add)
+            for f in self.pc[-60:]:
+                collect_index_terms(f, add)
+            new = 0
+            i = 0
+            while i < len(self.qhyps):
+                q, guard = self.qhyps[i]
+                i += 1
+                for h in q.hints:
+                    add(h)
+                for t in list(cands):
+                    key = (id(q), t.sexpr())
+                    if key in self.qdone:
+                        continue
+                    self.qdone.add(key)
+                    inst = q.instance(t)
+                    new += 1
+                    if isinstance(inst, S.QGuard):
+                        g2 = inst.guard if guard is None else z3.And(guard, inst.guard)
+                        self.qhyps.append((inst.q, g2))
+                    else:
+                        f = inst if guard is None else z3.Implies(guard, S._b(inst))
+                        if not isinstance(f, bool):
+                            self.pc.append(f)
+                            self.solver.add(f)
+                            goal_terms = list(goal_terms) + [f]
+            if not new:
+                break
+
     def oblige(self, oid, goal, kind, where=''):
+        skolems = []
+        if isinstance(goal, S.QForall):
+            guards = []
+            while isinstance(goal, S.QForall):
+                k = self._const('sk', z3.IntSort())
+                skolems.append(k)
+                guards.append(z3.And(goal.lo <= k, k < goal.hi))
+                goal = goal.fn(k)
+            goal = z3.Implies(z3.And(*guards), S._b(goal))
+        if isinstance(goal, z3.ExprRef):
+            self.apply_axioms([goal])
+        if self.qhyps and isinstance(goal, z3.ExprRef):
+            self.instantiate([goal] + skolems)
+            self.apply_axioms([goal])
         if goal is True:
             goal = z3.BoolVal(True)
         if goal is False:
@@ -287,6 +401,25 @@ class SymListView:
         return to_spec(self._ctx, self._heap, symlist_elem(h, i))
 
 
+class ConcListView:
+    """A list whose length is concrete on this path."""
+    def __init__(self, ctx, heap, oid):
+        self._ctx, self._heap, self._oid = ctx, heap, oid
+
+    @property
+    def len(self):
+        return len(self._heap[self._oid].fields['items'])
+
+    def get(self, i):
+        items = self._heap[self._oid].fields['items']
+        if isinstance(i, int):
+            return to_spec(self._ctx, self._heap, items[i])
+        i = z3.simplify(i)
+        if z3.is_int_value(i):
+            return to_spec(self._ctx, self._heap, items[i.as_long()])
+        raise Unsupported('symbolic index into a concrete list in a specification')
+
+
 def to_spec(ctx, heap, v):
     if isinstance(v, (VInt, VBool, VReal, VStr, VAny)):
         return v.t
@@ -298,10 +431,14 @@ def to_spec(ctx, heap, v):
         return tuple(to_spec(ctx, heap, x) for x in v.items)
     if isinstance(v, VOpt):
         return Opt(v.isnone, to_spec(ctx, heap, v.inner))
+    if isinstance(v, VPat):
+        return S.Pat(v.iseof, v.isto, to_spec(ctx, heap, v.payload))
     if isinstance(v, VObj):
         h = heap[v.oid]
         if h.kind == 'symlist':
             return SymListView(ctx, heap, v.oid)
+        if h.kind == 'list':
+            return ConcListView(ctx, heap, v.oid)
         return ObjView(ctx, heap, v.oid)
     if isinstance(v, (VFunc, VModule)):
         return v
@@ -317,6 +454,56 @@ class NS:
         raise AttributeError('spec view: no such name %s' % name)
 
 
+def _find_axioms(t):
+    buf, sub, st = t.arg(0), t.arg(1), t.arg(2)
+    L, m = z3.Length(buf), z3.Length(sub)
+    return [z3.Or(t == -1, z3.And(t >= st, t >= 0, t + m <= L, z3.SubString(buf, t, m) == sub))]
+
+
+AXIOMS = {'Find': _find_axioms, 'RFind': _find_axioms}
+
+
+def collect_apps(f, names, out, seen):
+    if not isinstance(f, z3.ExprRef):
+        return
+    stack = [f]
+    n = 0
+    while stack and n < 6000:
+        t = stack.pop()
+        n += 1
+        tid = t.get_id()
+        if tid in seen:
+            continue
+        seen.add(tid)
+        if z3.is_app(t):
+            if t.decl().kind() == z3.Z3_OP_UNINTERPRETED and t.num_args() > 0 and t.decl().name() in names:
+                out.append(t)
+            stack.extend(t.children())
+
+
+def collect_index_terms(f, add, depth=0):
+    """Index-like integer terms of a formula: array read indices, substr offsets, seq.nth."""
+    if not isinstance(f, z3.ExprRef):
+        return
+    stack = [f]
+    seen = set()
+    n = 0
+    while stack and n < 4000:
+        t = stack.pop()
+        n += 1
+        tid = t.get_id()
+        if tid in seen:
+            continue
+        seen.add(tid)
+        if z3.is_app(t):
+            k = t.decl().kind()
+            if k == z3.Z3_OP_SELECT:
+                add(t.arg(1))
+            elif k == z3.Z3_OP_UNINTERPRETED and t.num_args() == 0 and t.sort() == z3.IntSort() and t.decl().name().startswith('sk'):
+                add(t)
+            stack.extend(t.children())
+
+
 def symlist_elem(h, i):
     """Element i of a symbolic list of tuples/scalars."""
     comps = h.fields['comps']       # list of (z3 Array, type)
@@ -324,6 +511,8 @@ def symlist_elem(h, i):
     for arr, ty in comps:
         t = z3.Select(arr, i)
         vals.append(_wrap(t, ty))
+    if h.fields.get('pat'):
+        return VPat(vals[0].t, vals[1].t, vals[2])
     if h.fields.get('scalar'):
         return vals[0]
     return VTuple(vals)
@@ -344,5 +533,7 @@ def _wrap(t, ty):
 
 
 def sort_of(ty):
+    if ty.tag == 'Array':
+        return z3.ArraySort(z3.IntSort(), sort_of(ty.args[0]))
     return {'Int': z3.IntSort(), 'Str': z3.StringSort(), 'Bool': z3.BoolSort(), 'Any': Val,
             'Real': z3.RealSort()}[ty.tag]
